@@ -924,11 +924,217 @@ def register_binary_tree(R):
           notes="deprecated frame form; the id / pid columns are handed to is_bifurcate, whose contract is used modularly")
 
 
+# ---------------------------------------------------------------------------------------------------------------
+# normalizer.py: link_roots_to_nearest_ (and its copying form)
+#
+# Domain (the property's "multi-root forests with any id base"): ids pairwise distinct and never -1, every parent id names a
+# row, no cycle (depth witness dp18), comp18 = the row of a row's root.  Ghost state G (arrays over the rows): rt = root row
+# and dp = depth in the CURRENT (partly repaired) forest, par = the row a repaired root was hung under.
+class Ghost18:
+    pass
+
+
+def register_link_roots(R):
+    from pyvc.ext_C18 import DFrame as XFrame, InfMasked18, RowIter18
+    from pyvc.values import Obj
+
+    sel = z3.Select
+
+    def frame(S, frozen=False):
+        cols = dict(SWC_COLS)
+        cols["w"] = "real"  # an extra per-node column
+        n = S.int("df_n")
+        S.assume(n.z >= 0)
+        df = XFrame({c: SArr.fresh(k, n.z, name=f"df_{c}") for c, k in cols.items()}, n.z)
+        df.frozen = frozen
+        return df
+
+    def ghost_state(n):
+        x = z3.Int("x18")
+        return Obj(Ghost18, dict(rt=SArr(z3.Lambda([x], comp18(x)), n, "int", name="rt"), dp=SArr(z3.Lambda([x], dp18(x)), n, "int", name="dp"),
+                                 par=SArr(z3.K(_I, z3.IntVal(0)), n, "int", name="par")))
+
+    def setup(S):
+        df = frame(S)
+        return dict(df=df, names=None, G=ghost_state(zint(df.n)))
+
+    # ------------------------------------------------------------ preconditions
+    def pre(which):
+        def f(E, v, o):
+            T = Table18(E, v["df"])
+            a, b = z3.Int("a18"), z3.Int("b18")
+            pa = sel(T.PID, a)
+            if which == "has-a-root":
+                return z3.Exists([a], z3.And(T.R(a), pa == -1))
+            if which == "ids-pairwise-distinct-and-never-the-marker":
+                return z3.And(z3.ForAll([a, b], z3.Implies(z3.And(0 <= a, a < b, b < T.n), sel(T.ID, a) != sel(T.ID, b))),
+                              z3.ForAll([a], z3.Implies(T.R(a), sel(T.ID, a) != -1)))
+            if which == "every-parent-id-names-a-row":
+                return T.parents_exist()
+            if which == "no-cycle(depth-witness)":
+                return z3.ForAll([a], z3.Implies(T.R(a), z3.And(dp18(a) >= 0, z3.Implies(pa != -1, dp18(T.e(a)) < dp18(a)))))
+            if which == "comp18-is-the-row-of-the-root":
+                return z3.ForAll([a], z3.Implies(T.R(a), z3.And(T.R(comp18(a)), sel(T.PID, comp18(a)) == -1, comp18(a) == z3.If(pa == -1, a, comp18(T.e(a))))))
+            raise KeyError(which)
+
+        return (which, f)
+
+    PRE = [pre(nm) for nm in ("has-a-root", "ids-pairwise-distinct-and-never-the-marker", "every-parent-id-names-a-row", "no-cycle(depth-witness)",
+                              "comp18-is-the-row-of-the-root")]
+
+    # ------------------------------------------------------------ loop invariant
+    def by_type(v, cls, what):
+        c = [x for x in v.values() if isinstance(x, cls)]
+        if len(c) != 1:
+            raise KeyError(f"link_roots_to_nearest_: expected exactly one {what} among the locals")
+        return c[0]
+
+    def labels_of(v):
+        c = [x for k_, x in v.items() if isinstance(x, SArr) and x.kind == "int"]
+        if len(c) != 1:
+            raise KeyError("link_roots_to_nearest_: expected exactly one int array among the locals")
+        return c[0]
+
+    class Ctx:
+        def __init__(self, E, v, o):
+            d0, d1 = o["df"], v["df"]
+            self.T = Table18(E, d0)
+            self.n, self.ID, self.P0, self.P1 = self.T.n, self.T.ID, self.T.PID, d1.cols["pid"].arr
+            G = v["G"]
+            self.rt, self.dp, self.par = G.fields["rt"].arr, G.fields["dp"].arr, G.fields["par"].arr
+            it = by_type(v, RowIter18, "row iterator")
+            self.kappa, self.rho, self.m = it.sel.flt.kappa, it.sel.flt.rho, it.sel.flt.nz()
+            self.k = to_z3(v["_k0"], "int")
+
+        def R(self, t):
+            return self.T.R(t)
+
+        def root0(self, x):
+            return sel(self.P0, x) == -1
+
+        def cur_root(self, x):
+            return z3.And(self.root0(x), z3.Or(self.rho(x) == 0, self.rho(x) > self.k))
+
+        def P(self, x):
+            return z3.If(self.root0(x), sel(self.par, x), self.T.e(x))
+
+    def inv(which):
+        def f(E, v, o):
+            C = Ctx(E, v, o)
+            x, y = z3.Int("x18"), z3.Int("y18")
+            if which == "only-the-parent-column-is-written":
+                d0, d1 = o["df"], v["df"]
+                same = [z3.ForAll([x], z3.Implies(C.R(x), sel(d1.cols[c].arr, x) == sel(d0.cols[c].arr, x))) for c in d0.cols if c != "pid"]
+                return z3.And(z3.BoolVal(list(d1.cols) == list(d0.cols)), zint(d1.n) == C.n, C.m >= 1, *same)
+            if which == "original-edges-kept":
+                return z3.ForAll([x], z3.Implies(z3.And(C.R(x), z3.Not(C.root0(x))), sel(C.P1, x) == sel(C.P0, x)))
+            if which == "roots-taken-so-far-are-linked-the-others-untouched":
+                linked = z3.And(C.rho(x) >= 1, C.rho(x) <= C.k)
+                return z3.ForAll([x], z3.Implies(z3.And(C.R(x), C.root0(x)),
+                                                 z3.If(linked, z3.And(C.R(sel(C.par, x)), sel(C.P1, x) == sel(C.ID, sel(C.par, x))), sel(C.P1, x) == -1)))
+            if which == "current-table-is-a-forest(root-and-depth-witness)":
+                rx = sel(C.rt, x)
+                return z3.ForAll([x], z3.Implies(C.R(x), z3.And(
+                    C.R(rx), C.cur_root(rx), sel(C.dp, x) >= 0,
+                    z3.If(C.cur_root(x), rx == x, z3.And(C.R(C.P(x)), sel(C.rt, C.P(x)) == rx, sel(C.dp, C.P(x)) < sel(C.dp, x))))))
+            if which == "labels-are-equal-exactly-within-a-tree":
+                d = labels_of(v)
+                return z3.And(d.nz() == C.n, z3.ForAll([x, y], z3.Implies(z3.And(C.R(x), C.R(y)), (sel(d.arr, x) == sel(d.arr, y)) == (sel(C.rt, x) == sel(C.rt, y)))))
+            raise KeyError(which)
+
+        return f
+
+    INV = ["only-the-parent-column-is-written", "original-edges-kept", "roots-taken-so-far-are-linked-the-others-untouched",
+           "current-table-is-a-forest(root-and-depth-witness)", "labels-are-equal-exactly-within-a-tree"]
+
+    # ------------------------------------------------------------ ghost code: after the store of the new parent id
+    def g_link(E, v):
+        G = v["G"]
+        rt, dp, par = G.fields["rt"].arr, G.fields["dp"].arr, G.fields["par"].arr
+        i = [x_ for k_, x_ in v.items() if isinstance(x_, Sym) and x_.kind == "int" and not k_.startswith("_k")]
+        dis = by_type(v, InfMasked18, "masked distance array")
+        if len(i) != 1 or dis.idx is None:
+            raise KeyError("link_roots_to_nearest_: cannot identify the root being linked / the chosen row")
+        i, j = i[0].z, dis.idx.z
+        E.ghost["link-step"] = dict(rt=rt, dp=dp, i=i, j=j, mask=dis.mask)  # the state before the update, for the proof steps below
+        x = z3.Int("x18")
+        moved = sel(rt, x) == i
+        G.fields["rt"].arr = z3.Lambda([x], z3.If(moved, sel(rt, j), sel(rt, x)))
+        G.fields["dp"].arr = z3.Lambda([x], z3.If(moved, sel(dp, x) + sel(dp, j) + 1, sel(dp, x)))
+        G.fields["par"].arr = z3.Store(par, i, j)
+
+    GHOST = [(lambda txt: ".loc[" in txt.split("=")[0] and ".iloc[" in txt, g_link)]
+
+    def step_hint(E, v):
+        """proof steps of one iteration (each its own obligation): the first root's tree is another tree, so argmin picks a row of another tree"""
+        st = E.ghost.get("link-step")
+        if st is None or "G" not in v:
+            return
+        it = by_type(v, RowIter18, "row iterator")
+        kappa, n = it.sel.flt.kappa, zint(v["df"].n)
+        rt, i, j, mask = st["rt"], st["i"], st["j"], st["mask"]
+        r0 = kappa(0)
+        E.prove("link_roots_to_nearest_/step/the-first-root-heads-another-tree", z3.And(r0 >= 0, r0 < n, sel(rt, r0) == r0, sel(rt, i) == i, r0 != i), "annotation")
+        E.prove("link_roots_to_nearest_/step/some-row-lies-in-another-tree", z3.Not(mask.get(r0).z), "annotation")
+        E.prove("link_roots_to_nearest_/step/the-chosen-row-lies-in-another-tree", z3.And(j >= 0, j < n, sel(rt, j) != i), "annotation")
+
+    class AnyName(dict):
+        """rebind rule for whatever name the label array has: a fresh int array of the same length"""
+
+        def get(self, key, default=None):
+            return lambda eng, cur: SArr.fresh(cur.kind, cur.n, name=cur.name)
+
+    # ------------------------------------------------------------ postconditions
+    def witnesses(E, v, n):
+        """(par, dp): the final ghost arrays in the carrier's own proof, fresh Skolem arrays at a call site"""
+        if "G" in v:
+            return v["G"].fields["par"].arr, v["G"].fields["dp"].arr
+        A = z3.ArraySort(_I, _I)
+        return z3.Const(fresh_name("link_par"), A), z3.Const(fresh_name("link_depth"), A)
+
+    def post(which):
+        def f(E, v, o):
+            d0, d1 = o["df"], v["df"]
+            T = Table18(E, d0)
+            P0, P1, ID = T.PID, d1.cols["pid"].arr, T.ID
+            r0 = _first_root(E, d0)
+            x = z3.Int("x18")
+            if which == "first-root-kept":
+                return sel(P1, r0) == -1
+            if which == "single-root":
+                return z3.ForAll([x], z3.Implies(z3.And(T.R(x), x != r0), sel(P1, x) != -1))
+            if which == "every-original-edge-kept":
+                return z3.ForAll([x], z3.Implies(z3.And(T.R(x), sel(P0, x) != -1), sel(P1, x) == sel(P0, x)))
+            if which == "no-cycle-introduced(every-row-hangs-under-a-row-of-smaller-depth,only-the-first-root-has-no-parent)":
+                par, dp = witnesses(E, v, T.n)
+                Px = z3.If(sel(P0, x) == -1, sel(par, x), T.e(x))
+                return z3.ForAll([x], z3.Implies(T.R(x), z3.And(sel(dp, x) >= 0, z3.Implies(x != r0, z3.And(T.R(Px), sel(ID, Px) == sel(P1, x), sel(dp, Px) < sel(dp, x))))))
+            raise KeyError(which)
+
+        return f
+
+    def other_cols(E, v, o):
+        d1, d0 = v["df"], o["df"]
+        x = z3.Int("x18")
+        out = [z3.ForAll([x], z3.Implies(z3.And(x >= 0, x < zint(d0.n)), sel(d1.cols[c].arr, x) == sel(d0.cols[c].arr, x))) for c in d0.cols if c != "pid"]
+        return z3.And(z3.BoolVal(set(d1.cols) == set(d0.cols)), zint(d1.n) == zint(d0.n), *out)
+
+    POSTS = ["first-root-kept", "single-root", "every-original-edge-kept",
+             "no-cycle-introduced(every-row-hangs-under-a-row-of-smaller-depth,only-the-first-root-has-no-parent)"]
+    R.add(f"{NORM}:link_roots_to_nearest_", prop="C18", setup=setup, requires=PRE, modifies=["df"],
+          ensures=[(nm, post(nm)) for nm in POSTS] + [("attributes-untouched", other_cols)],
+          loops={0: dict(invariant=[(nm, inv(nm)) for nm in INV], modifies=["G", "df"], rebind=AnyName())},
+          options=dict(ghost_after=GHOST, hints={"loop0/preserved/only-the-parent-column-is-written": step_hint}),
+          notes="which foreign row is chosen (the nearest) is not part of the property: the contract needs only that argmin over the rows of OTHER trees "
+                "returns a row of another tree; termination of get_dsu is not proved")
+
+
 _reg_5 = register
 
 
 def register(R):  # noqa: F811
     _reg_5(R)
+    register_link_roots(R)
     register_get_dsu(R)
     register_single_root(R)
     register_binary_tree(R)
